@@ -45,6 +45,9 @@ def native_constructible(cls):
 
 def native_call(ip, f, args, kw):
     """call a real Python callable on fully concrete arguments; exceptions become PyRaise"""
+    import logging as _logging
+    if isinstance(getattr(f, '__self__', None), _logging.Logger):
+        return None          # logging has no semantic effect
     args = [ _to_native(ip, a) for a in args]
     kw = {k: _to_native(ip, v) for k, v in kw.items()}
     try:
@@ -808,7 +811,7 @@ def _alg_of(ip, d):
 
 @builtin(hmac.new, hmac.HMAC)
 def _hmac_new(ip, args, kw):
-    key = args[0]
+    key = args[0] if args else kw.get('key')
     msg = args[1] if len(args) > 1 else kw.get('msg', b"")
     dm = args[2] if len(args) > 2 else kw.get('digestmod')
     if msg is None:
@@ -1220,7 +1223,12 @@ def int_from_bytes_model(ip, args, kw):
     s = ip.seq_view(b) if isinstance(b, (Loc, SV)) else lift(b)
     n = simp(z3.Length(s.e))
     if not z3.is_int_value(n):
-        uv = ip.st.unique_value(n) if not ip.st.merge else None
+        uv = ip.st.unique_value(n, force=True) if not ip.st.merge else None
+        if uv is None and not ip.st.merge:
+            for cand in (32, 64, 20, 4, 8, 1, 2, 16, 33, 65):     # usual fixed widths: is the length implied?
+                if not ip.st.feasible(n != cand):
+                    uv = cand
+                    break
         if uv is None:
             raise Unsupported("int.from_bytes of a string of symbolic length")
         n = z3.IntVal(uv)
